@@ -107,7 +107,7 @@ def historyRawFrom (b : Blob) (created : Nat) : Nat → List Event → Res (List
       | .panic x => .panic x
 
 def historySinceInt (b : Blob) (st : DidState) (version : Int) : Res (List (String × Nat × Nat × Nat)) :=
-  if version < 0 then .err "negative-version"
+  if version < 0 then .err "other:negative version"
   else
     match st.events with
     | [] => .err "storage-not-found"
